@@ -1,7 +1,7 @@
 """C01 - every valid instruction assembles to its exact AVR ISA machine code."""
 import random
 
-from . import encgen, encrun
+from . import encgen, encrun, gen
 
 PROP = "C01"
 
@@ -18,10 +18,12 @@ def cases(tier, seed):
 
 def run(res):
     encrun.standard_run(
-        res, PROP, cases(res.tier, res.seed), keep=lambda r: r[3] != "NONE", what="legal-operand",
+        res, PROP, lambda vh: cases(res.tier, res.seed) + encgen.per_device(gen.read_devices(vh), res.tier != "quick"), keep=lambda r: r[3] != "NONE", what="legal-operand",
         rule=("cases = (core, pc, mnemonic, operand tuple) enumerated by vlib/encgen.py legal()+addresses()+relative(), restricted to "
               "tuples Spec/Isa.expect_at can encode; each is run through instruction::process of /repo, the extracted Coq model and "
-              "the ISA table; distinct = distinct case text, all are non-trivial (an instruction is encoded)"),
+              "the ISA table; plus per_device(): under EVERY device row of the table, every mnemonic and the operands at which a device figure "
+              "(flash words/bytes, RAM start/end, EEPROM size) could be mistaken for a limit of the instruction; distinct = distinct case "
+              "text, all are non-trivial (an instruction is encoded)"),
         exhaustive_note=("complete for every one-word form (all registers, immediates, displacements, ports, bits, branch and "
                          "rjmp/rcall offsets); jmp/call: all 64 high parts x 8 boundary low parts + random; lds/sts: all registers x "
                          "boundary + random addresses; reduced-core lds/sts complete"),
